@@ -37,7 +37,7 @@ func VP_C12_long() {
 	if err != nil {
 		return
 	}
-	v, rerr := NewRunner().resolve(context.Background(), code.Expression)
+	v, rerr := vpExact(NewRunner(), context.Background(), code.Expression)
 	got, ok := v.(*decimal.Big)
 	vpAssert("C12/long/is-number", rerr == nil && ok && got != nil)
 	if !ok || got == nil {
@@ -190,7 +190,7 @@ func VP_C12_literals() {
 		return
 	}
 	r := NewRunner()
-	v, rerr := r.resolve(context.Background(), code.Expression)
+	v, rerr := vpExact(r, context.Background(), code.Expression)
 	vpAssert("C12/literals/evaluates", rerr == nil)
 	if rerr != nil {
 		return
@@ -215,7 +215,7 @@ func VP_C12_literals() {
 	}
 	if pos == 5 {
 		// the second evaluation of the same tree (fresh runner) is the one judged
-		v2, rerr2 := NewRunner().resolve(context.Background(), code.Expression)
+		v2, rerr2 := vpExact(NewRunner(), context.Background(), code.Expression)
 		vpAssert("C12/literals/evaluates-again", rerr2 == nil)
 		if rerr2 != nil {
 			return
